@@ -33,7 +33,7 @@ type Ctx struct {
 }
 
 func (c *Ctx) Count(k string, n int64) { c.Counters[k] += n }
-func (c *Ctx) Stamp() int64           { return c.stamp.Add(1) }
+func (c *Ctx) Stamp() int64            { return c.stamp.Add(1) }
 func (c *Ctx) Sample(format string, a ...any) {
 	if len(c.Samples) < 40 {
 		c.Samples = append(c.Samples, fmt.Sprintf(format, a...))
